@@ -521,10 +521,65 @@ def rule_formulas(repo, rep):
     if isinstance(loop[0].iter.func, ast.Name) and \
             loop[0].iter.func.id == 'zip':
       frames = {}
+      top_ = loop[0]
+      pm_ = astutil.parents(fg.node)
+      while top_ not in fg.node.body and top_ in pm_:
+        top_ = pm_[top_]
+
+      mask_names = tuple(
+          t_ for n_ in ast.walk(fg.node) if isinstance(n_, ast.Assign)
+          for (t_, v_) in astutil.assign_pairs(n_)
+          if isinstance(v_, (ast.Compare, ast.BoolOp)) or (
+              isinstance(v_, ast.UnaryOp) and
+              isinstance(v_.op, (ast.Not, ast.Invert))))
+
+      def restriction(a):
+        """the mask by which a zipped sequence is restricted: its own
+        subscript, or - for an element-wise expression of restricted arrays
+        held in a temporary - the one mask all its array leaves carry;
+        '?' when that cannot be told"""
+        if isinstance(a, ast.Subscript):
+          return ast.unparse(a.slice)
+        un = astutil.unfold(a, fg.node.body, top_,
+                            stop=tuple(fg.params()) + mask_names) \
+            if top_ in fg.node.body else a
+        if isinstance(un, ast.Name):
+          return None
+        masks = set()
+        covered = set()
+        for x in ast.walk(un):
+          if isinstance(x, ast.Subscript) and isinstance(
+                  x.slice, (ast.Name, ast.Compare, ast.UnaryOp)):
+            masks.add(ast.unparse(x.slice))
+            for y in ast.walk(x.value):
+              covered.add(id(y))
+        leaves = [x for x in ast.walk(un)
+                  if isinstance(x, (ast.Name, ast.Attribute)) and
+                  id(x) not in covered and
+                  ast.unparse(x) not in ('np', 'self') and
+                  not ast.unparse(x).startswith('np.') and
+                  ast.unparse(x) not in masks and
+                  not (isinstance(x, ast.Name) and
+                       any(x.id == m_ for m_ in masks))]
+        # names that are parts of attribute chains already counted
+        leaves = [x for x in leaves if not any(
+            isinstance(p_, ast.Attribute) and p_.value is x for p_ in leaves)]
+        if len(masks) == 1 and not leaves:
+          return next(iter(masks))
+        if not masks:
+          return None           # no selection anywhere: unrestricted
+        return '?'
+      undecided = False
       for a in loop[0].iter.args:
-        fr = ast.unparse(a.slice) if isinstance(a, ast.Subscript) else None
+        fr = restriction(a)
+        if fr == '?':
+          undecided = True
         frames.setdefault(fr, []).append(ast.unparse(a))
-      if len(frames) > 1:
+      if undecided:
+        rep.unknown(R, 'lsml._BaseLSML._gradient:alignment',
+                    site(fg, loop[0]), 'restriction of %s not derivable'
+                    % frames.get('?'))
+      elif len(frames) > 1:
         odd = min(frames.items(), key=lambda kv: len(kv[1]))
         rep.refuted(R, 'lsml._BaseLSML._gradient:alignment',
                     site(fg, loop[0]), '%s is iterated %s while the other '
